@@ -1851,6 +1851,14 @@ class Interval(Node):
     units = ["years", "months", "days", "hours", "minutes", "seconds", "microseconds"]
     labels = ["YEAR", "MONTH", "DAY", "HOUR", "MINUTE", "SECOND", "MICROSECOND"]
 
+    # what the clauses ask of every item they hold (an interval may stand on its own in a select list, in RETURNING ...):
+    # it has no alias and mentions no column
+    alias: str | None = None
+    tables_: set["Table"] = set()
+
+    def fields_(self) -> set["Field"]:
+        return set()
+
     trim_pattern = re.compile(r"(^0+\.)|(\.0+$)|(^[0\-.: ]+[\-: ])|([\-:. ][0\-.: ]+$)")
 
     def __init__(
